@@ -1,8 +1,100 @@
+import Martian.ForkName
+import Gen.Facts
 import Driver.Util
 
-/-! Line-protocol handler for property C11 (stub: replaced when the model exists). -/
-namespace Driver.C11
+/-! Line-protocol handler for property C11 (fork names and journal routing).
 
-def handle (_op : String) (_args : List String) : Option String := none
+Ops (byte strings hex-encoded, `-` = empty):
+  esc k                  -> hex            pathEscape
+  unesc s                -> some hex|none  pathUnescape
+  jenc s                 -> hex            journalEnc Gen.journalPairs
+  forkid parts           -> some hex|none  forkIdString Gen.forkIdReenters
+       parts = `;`-separated: `a:<idx>:<len>:<0|1>` | `k:<hexkey>:<hexlist>:<0|1>` | `u` | `e`; `.` = no parts
+  pad w n                -> hex            padded
+  width n                -> nat            widthForInt
+  chunk n i              -> hex            chunkName
+  render fq fp ch uq f   -> hex            JName.render  (ch, uq: `-` = absent)
+  parse s                -> nl | none | some fq fp ch uq file
+  getfork names index    -> none | some i  getForkNew
+  getforkold names index -> none | some i  getForkOld
+-/
+namespace Driver.C11
+open Martian.ForkName Driver
+
+def parsePart (s : String) : Option Part :=
+  match s.splitOn ":" with
+  | ["a", i, l, st] => do
+    let i ← i.toNat?
+    let l ← l.toNat?
+    pure (.arr i l (st == "1"))
+  | ["k", k, ks, st] => do
+    let k ← bytesOfHex k
+    let ks ← parseHexList ks
+    pure (.key k ks (st == "1"))
+  | ["u"] => some .undet
+  | ["e"] => some .empty
+  | _ => none
+
+def parseParts (s : String) : Option (List Part) :=
+  if s == "." then some [] else (s.splitOn ";").mapM parsePart
+
+def optB (s : String) : Option (Option Bytes) :=
+  if s == "-" then some none else (bytesOfHex s).map some
+
+def showOpt : Option Bytes → String
+  | some b => hexOfBytes b
+  | none => "-"
+
+def handle (op : String) (args : List String) : Option String :=
+  match op, args with
+  | "esc", [k] => do
+    let k ← bytesOfHex k
+    pure (hexOfBytes (pathEscape k))
+  | "unesc", [s] => do
+    let s ← bytesOfHex s
+    pure (optHex (pathUnescape s))
+  | "jenc", [s] => do
+    let s ← bytesOfHex s
+    pure (hexOfBytes (journalEnc Gen.journalPairs s))
+  | "forkid", [ps] => do
+    let ps ← parseParts ps
+    pure (optHex (forkIdString Gen.forkIdReenters ps))
+  | "pad", [w, n] => do
+    let w ← w.toNat?
+    let n ← n.toNat?
+    pure (hexOfBytes (padded w n))
+  | "width", [n] => do
+    let n ← n.toNat?
+    pure (toString (widthForInt n))
+  | "chunk", [n, i] => do
+    let n ← n.toNat?
+    let i ← i.toNat?
+    pure (hexOfBytes (chunkName n i))
+  | "render", [fq, fp, ch, uq, f] => do
+    let fq ← bytesOfHex fq
+    let fp ← bytesOfHex fp
+    let ch ← optB ch
+    let uq ← optB uq
+    let f ← bytesOfHex f
+    pure (hexOfBytes (JName.render ⟨fq, fp, ch, uq, f⟩))
+  | "parse", [s] => do
+    let s ← bytesOfHex s
+    if s.contains cNL then pure "nl" else
+    match parseRun s with
+    | none => pure "none"
+    | some x => pure s!"some {hexOfBytes x.fqid} {hexOfBytes x.forkPart} {showOpt x.chunk} {showOpt x.uniq} {hexOfBytes x.file}"
+  | "getfork", [names, index] => do
+    let names ← parseHexList names
+    let index ← bytesOfHex index
+    match getForkNew names index with
+    | some i => pure s!"some {i}"
+    | none => pure "none"
+  | "getforkold", [names, index] => do
+    let names ← parseHexList names
+    let index ← bytesOfHex index
+    match getForkOld names index with
+    | some i => pure s!"some {i}"
+    | none => pure "none"
+  | _, _ => none
 
 end Driver.C11
